@@ -239,6 +239,68 @@ def _ob_other(opi: int, auto: bool, c0: int, c1: int) -> bool:
     return _policy(opi, auto, False, c0, c1, _other_ops(), PATH)
 
 
+# ---------------------------------------------------------------------------
+# the policy survives a REFUSED call: after a creation / assignment that raised, automatic time stamps work
+# exactly as before (switch on: the next listed setter stamps its entity with 'now'; off: nothing moves)
+# ---------------------------------------------------------------------------
+def _refused_calls():
+    import nixio
+    return [
+        lambda E: E["block"].create_data_array("x", "t", data=[1.0], label=5),
+        lambda E: E["block"].create_data_array("x", "t", data=[1.0], unit=5),
+        lambda E: E["block"].create_data_array("da", "t", data=[1.0]),                      # duplicate name
+        lambda E: E["block"].create_tag("x", "t", ["p"]),
+        lambda E: E["block"].create_multi_tag("x", "t", positions=5),
+        lambda E: E["tag"].create_feature(E["block2"].create_data_array("far", "t", data=[1.0]), nixio.LinkType.Tagged),
+        lambda E: E["tag"].create_feature(E["da2"], "no such link type"),
+        lambda E: E["section"].create_property("q", [1, "a"]),
+        lambda E: setattr(E["tag"], "units", [5]),
+        lambda E: E["block"].create_data_frame("x", "t", col_names=["a", "a"], col_dtypes=[int, int]),
+        lambda E: setattr(E["data_array"], "label", 5),
+        lambda E: E["data_array"].append_set_dimension([1, 2]),
+    ]
+
+
+def _ob_after_refusal(ri: int, opi: int, auto: bool, c0: int, c1: int) -> bool:
+    """
+    pre: 0 <= c0 and 0 <= c1
+    pre: 0 <= ri < 12 and 0 <= opi < 12
+    post: __return__
+    """
+    return _after_refusal(ri, opi, auto, c0, c1, PATH)
+
+
+def _after_refusal(ri, opi, auto, c0, c1, path):
+    nixfake.begin([c0])
+    E = _fixture(auto, path)
+    call = _pick(_refused_calls(), ri)
+    try:
+        call(E)
+        assume(False)                          # (only refused calls are the subject here)
+    except Exception as e:  # noqa
+        if type(e).__name__ == "IgnoreAttempt":
+            raise
+    if E["file"].auto_update_timestamps != auto:
+        return False                            # the switch is the user's
+    # every fourth listed setter (one per entity kind), then the policy as usual
+    ops = _listed_ops()
+    target, label, action = _pick([ops[k] for k in (0, 2, 4, 8, 16, 22, 28, 32, 33, 35, 39, 47)], opi)
+    E.pop("far", None)
+    before = _stamps(E)
+    nixfake.set_clock([c1])
+    action(E)
+    after = _stamps(E)
+    for k in before:
+        if after[k][0] != before[k][0]:
+            return False
+        if k == target and auto:
+            if after[k][1] != c1:
+                return False
+        elif after[k][1] != before[k][1]:
+            return False
+    return True
+
+
 _FORCE_KINDS = ["file", "block", "group", "data_array", "tag", "multi_tag", "source", "section",
                 "subsection", "property", "data_frame"]
 
@@ -336,7 +398,9 @@ def _real_policy(fn_args, which):
         if "c1" in a:
             a["c1"] = min(max(a["c1"], 0), 4000000000)
         try:
-            if which == "listed":
+            if which == "refusal":
+                ok = _after_refusal(a["ri"], a["opi"], a["auto"], a["c0"], a["c1"], path)
+            elif which == "listed":
                 ok = _policy(a["opi"], a["auto"], a["toggle"], a["c0"], a["c1"], _listed_ops(), path)
             else:
                 ok = _policy(a["opi"], a["auto"], False, a["c0"], a["c1"], _other_ops(), path)
@@ -398,6 +462,11 @@ OBLIGATIONS = [
                   "nixio.feature.Feature.link_type", "nixio.file.File.auto_update_timestamps"],
        replay=_replay_listed,
        outside="one fixture file with one entity per kind; persistence after reopening (libhdf5)"),
+    Ob("policy_after_a_refused_call", _ob_after_refusal, timeout=600,
+       functions=[_E + "force_updated_at", "nixio.file.File.auto_update_timestamps",
+                  "nixio.block.Block.create_data_array", "nixio.block.Block.create_tag"],
+       replay=lambda a: _real_policy(a, "refusal"),
+       outside="twelve refused calls x twelve listed setters (one per entity kind); clock values any integers"),
     Ob("other_mutations_policy", _ob_other, timeout=600, functions=[_E + "created_at"],
        replay=_replay_other),
     Ob("force_then_read", _ob_force, timeout=600,
